@@ -76,9 +76,15 @@ fn run(ctx: &mut Ctx, a: &ANode, rng: &mut Rng, forced_target: Option<usize>) {
     // an inner text node as the target is not explored: with consolidation on, removing a text node
     // that sits between two other text nodes merges those (documented behaviour of remove), which the
     // statement's "every other node is untouched" does not mean to forbid
+    // -> explored only where no such merge can happen: consolidation off, or not between two text nodes
     if target != built.node && xot.is_text(target) {
-        if let Some(p) = xot.parent(target) {
-            target = p;
+        let between_text = xot.previous_sibling(target).map_or(false, |n| xot.is_text(n)) && xot.next_sibling(target).map_or(false, |n| xot.is_text(n));
+        if consolidation && between_text {
+            if let Some(p) = xot.parent(target) {
+                target = p;
+            }
+        } else {
+            ctx.count("inner_text_node_as_target");
         }
     }
     // a lone parentless text node as target is covered by the tree root being a text leaf
@@ -247,10 +253,10 @@ impl Monitor for C18 {
         vec![Stream::new("forced", forced().len() as u64 * 3), Stream::new("random", scaled(n, budget))]
     }
     fn rule(&self) -> String {
-        "trees with whitespace-only, mixed and non-whitespace text (incl. U+00A0, U+0085, U+2003, U+2028, U+3000, empty and adjacent text nodes) in every sibling arrangement and xml:space in {preserve, default, other, empty} at any depth; applied to documents, elements, inner nodes and text nodes; before-tree + handles minus the predicted nodes must equal the after-tree + handles, and a second call must change nothing. Non-trivial = tree with >= 1 whitespace-only text node and >= 3 nodes; distinct by structural hash".into()
+        "trees with whitespace-only, mixed and non-whitespace text (incl. U+000B, U+000C, U+001C, U+001F, U+00A0, U+0085, U+2003, U+2028, U+3000, empty and adjacent text nodes) in every sibling arrangement and xml:space in {preserve, default, other, empty} at any depth; applied to documents, elements, inner nodes and (where no consolidation merge can interfere) inner text nodes themselves; before-tree + handles minus the predicted nodes must equal the after-tree + handles, and a second call must change nothing. Non-trivial = tree with >= 1 whitespace-only text node and >= 3 nodes; distinct by structural hash".into()
     }
     fn floors(&self, _tier: Tier) -> Vec<(&'static str, u64)> {
-        vec![("after_state_equal_to_prediction", 5_000), ("text_nodes_predicted_removed", 5_000), ("feature.xml_space_preserve", 500), ("feature.unicode_space_text", 500)]
+        vec![("after_state_equal_to_prediction", 5_000), ("text_nodes_predicted_removed", 5_000), ("feature.xml_space_preserve", 500), ("feature.unicode_space_text", 500), ("inner_text_node_as_target", 500)]
     }
     fn assumptions(&self) -> Vec<String> {
         vec!["trees <= 30 nodes, depth <= 6".into()]
